@@ -61,6 +61,10 @@ pub fn check(id: &str, tier: Tier) -> i32 {
     "C10" | "C20" => {
       let mut a = core_alphabet();
       a.extend([Op::Disc, Op::SetMin(0), Op::SetMin(64), Op::IncDisc(3)]);
+      if id == "C20" {
+        // "except through clear()": afterwards the accounting starts again from 0 with the minimum segment size in force
+        a.push(Op::Clear);
+      }
       (a, if id == "C10" { O_FREELIST } else { O_DISCARDED }, false, 4)
     }
     "C11" => {
